@@ -24,7 +24,7 @@ RULE = ("seeded random consistent battery/inverter data sets (1-5 groups, 1-3 ba
         "distinct = distinct canonical case JSON; non-trivial = >=2 groups and (non-zero remainder or a group "
         "whose proportional share is below its min power or a multi-inverter group)")
 REQUIRED_BUCKETS = ["supply", "consume", "multi-inverter", "deficit-regime", "surplus>incl", "exponent-0",
-                    "zero-headroom-group", "remainder-nonzero", "manager-level"]
+                    "zero-headroom-group", "remainder-nonzero", "manager-level", "manager-level:adjust_power=False"]
 REQUIRED_COUNTERS = ["contract_public", "contract_greedy", "contract_multi", "enforced_bounds_observed",
                      "manager_results_checked"]
 ASSUMPTIONS = ["float tolerance 1e-6*max(1,|power|)",
@@ -45,6 +45,7 @@ def gen(rng: Any, tier: str, i: int) -> Any:
     case = batdata.gen_case(rng)
     if case is not None and rng.random() < MANAGER_EVERY:
         case["mgr"] = True
+        case["mgr_adjust"] = rng.random() < 0.5  # Request.adjust_power
     return case
 
 
@@ -97,7 +98,7 @@ def manager_round(case: dict[str, Any]) -> dict[str, Any]:
     from ..vloop import LoopMonitor, run_virtual
     from . import c15
 
-    mcase = dict(case, exp=1.0, kind="battery", latency=0.0, followup=False)
+    mcase = dict(case, exp=1.0, kind="battery", latency=0.0, followup=False, adjust=case.get("mgr_adjust", True))
     n = sum(len(g["invs"]) for g in case["groups"])
     out: dict[str, Any] = {"rounds": []}
     run_virtual(lambda: c15._battery_run(mcase, ["ok"] * n, out), monitor=LoopMonitor())  # noqa: SLF001
@@ -120,6 +121,11 @@ def _manager_tier(case: dict[str, Any], rec: Any) -> None:
             if edge != 0 and abs(p - edge) <= 1e-9 * max(1.0, abs(edge)):
                 rec.count("request-on-exclusion-bound-in-ulp-sliver")
                 return
+        if not case.get("mgr_adjust", True) and not (b.inclusion_lower - 1e-9 <= p <= b.inclusion_upper + 1e-9):
+            rec.count("unadjustable-request-beyond-the-inclusion-bounds-refused")
+            return
+    if not case.get("mgr_adjust", True):
+        rec.bucket("manager-level:adjust_power=False")
     if not isinstance(res, Success):
         rec.violation("manager-did-not-report-success-for-in-domain-request", w)
         return
